@@ -215,6 +215,12 @@ func cloneBoundary(r *engine.Run, prop string) {
 				if !ok || !isNamed(mt.Elem(), pkgSC, "valueNode") {
 					return
 				}
+				if localMap(x.Map) {
+					// a working copy inside the function (a snapshot that is iterated
+					// afterwards) is no cache boundary: what is read back out of it keeps
+					// the labels of what went in and is judged where it reaches a cache
+					return
+				}
 				layer := fl.Of(x.Map)
 				got := fl.Of(x.Value)
 				c := o.next(fn(f) + "|map-store")
@@ -687,4 +693,29 @@ func domTxReset(r *engine.Run, rule string) {
 	}
 	r.Check(ok, rule, cons, pos, "every return of Commit follows the hand-over loop and an emptying of the transaction's pending map",
 		"Commit can return with the committed entries still in the transaction's pending map: they keep answering lookups as 'own uncommitted writes' after another transaction of the block overwrote or removed the key, and the next Commit of this transaction cache pushes the stale entries over the newer ones")
+}
+
+// localMap: the map was made in this function and is never stored anywhere
+// (no field, no global, not returned, not handed to a call).
+func localMap(m ssa.Value) bool {
+	mk, ok := m.(*ssa.MakeMap)
+	if !ok {
+		return false
+	}
+	for _, ref := range engine.Referrers(mk) {
+		switch u := ref.(type) {
+		case *ssa.MapUpdate:
+			if u.Map != ssa.Value(mk) {
+				return false
+			}
+		case *ssa.Lookup, *ssa.Range, *ssa.DebugRef:
+		case *ssa.Call:
+			if b, ok := u.Call.Value.(*ssa.Builtin); !ok || (b.Name() != "len" && b.Name() != "delete") {
+				return false
+			}
+		default:
+			return false
+		}
+	}
+	return true
 }
